@@ -29,7 +29,8 @@
 //   - calls s.M(args) of translated methods may be nested in expressions when M is PURE (its body assigns nothing but
 //     local variables and calls only pure methods; decided on the syntax tree), because Go leaves the order of a call
 //     relative to the other operand reads of a statement unspecified only if the call can change what they read; a call of
-//     an impure method must still be the whole expression of its statement and may not sit in the arguments of another call.
+//     an impure method must still be the whole expression of its statement, and may sit in the arguments of another call
+//     only when every other operand there is a local variable or a constant (tree.append(root, tree.newNamedObject(..))).
 //   - config "oraclefns": {"f": {"params": [..], "result": "uint8"}}: a package-level function that is not translated:
 //     the translated caller takes a parameter o_f : params -> option result (None = the call panics).
 //   - config "exttables": {"tbl.field": "coqlist:width"}: tbl[i].field for a package-level table of structs whose column
@@ -311,6 +312,49 @@ func (tr *translator) poolPure(spec fnSpec) bool {
 
 var poolImpureCount int
 
+// stableArgs: every operand in the arguments of the call (recursively, through nested calls of translated methods and
+// array literals) is a local variable, a parameter, a constant of the config or a literal - nothing a call could change
+func (tr *translator) stableArgs(c *ast.CallExpr, en *env) bool {
+	var stable func(e ast.Expr) bool
+	stable = func(e ast.Expr) bool {
+		switch x := e.(type) {
+		case *ast.ParenExpr:
+			return stable(x.X)
+		case *ast.BasicLit:
+			return true
+		case *ast.Ident:
+			if x.Name == tr.ptrRecv {
+				return false
+			}
+			if _, ok := en.vars[x.Name]; ok {
+				return true
+			}
+			if _, ok := cfg.Consts[tr.pkg+"."+x.Name]; ok {
+				return true
+			}
+			return x.Name == "true" || x.Name == "false" || x.Name == "nil"
+		case *ast.CompositeLit:
+			for _, el := range x.Elts {
+				if !stable(el) {
+					return false
+				}
+			}
+			return true
+		case *ast.CallExpr:
+			if _, ok := tr.recvMethod(x); ok {
+				return tr.stableArgs(x, en)
+			}
+		}
+		return false
+	}
+	for _, a := range c.Args {
+		if !stable(a) {
+			return false
+		}
+	}
+	return true
+}
+
 // poolExpr: the expressions of the mode; ok = false hands the expression to the ordinary translator
 func (tr *translator) poolExpr(e ast.Expr, en *env) (string, tinfo, bool) {
 	if tr.poolBypass {
@@ -415,8 +459,11 @@ func (tr *translator) poolExpr(e ast.Expr, en *env) (string, tinfo, bool) {
 			c0 := poolImpureCount
 			tr.poolBypass = true
 			s, ti := tr.expr(e, en)
-			if poolImpureCount > c0 {
-				fail("%s: a call of an impure method in the arguments of %s", tr.fn.Name, spec.Name)
+			if poolImpureCount > c0 && !tr.stableArgs(t, en) {
+				// Go orders the calls of a statement (lexically, inner before outer) but not the other operand reads
+				// relative to them: an impure call may sit in the arguments of another call only if every other operand
+				// is a local variable or a constant, which no call can change
+				fail("%s: a call of an impure method in the arguments of %s next to operands that are not local variables or constants", tr.fn.Name, spec.Name)
 			}
 			if tr.poolPure(spec) {
 				tr.hoistedCall = saved
